@@ -8,10 +8,14 @@ Helpers for C07b (parameter resolution of `format(...)`).
 * `resolve` : the box geometry for a `Written` (the rule the MODEL implements, see the header of
   `PoryProofs/Properties/C07b.lean` for the one point where it differs from the documentation,
   `resolveDoc`);
-* run-lemmas for `formatNamedParams` (one step, prefix, every rejection) and for
-  `parseFormatStringOperator` shape by shape (`reach_*` : up to the named-parameter loop,
-  `posOnly_*` : positional parameters only), with the tail of the function (`tailM`, `namedTail`)
-  evaluated once (`tailM_run`, `namedTail_run`).
+* the tail of `parseFormatStringOperator` as separate definitions (`tailM`, `namedTail`; tied to the
+  model in `PoryProofs/FormatParamsShapes.lean`) evaluated once (`tailM_run`, `namedTail_run`);
+* run-lemmas for `formatNamedParams`: one step (`fnp_step`), every rejection (`fnp_unknown`,
+  `fnp_noassign`, `fnp_dup`, `fnp_badval`, `fnp_afterComma`), a printed prefix (`fnp_prefix`) and
+  the whole loop (`fnp_all`).
+`parseFormatStringOperator` itself is evaluated shape by shape in
+`PoryProofs/FormatParamsShapes.lean`; the property theorems are in
+`PoryProofs/Properties/C07b.lean`.
 
 Run-lemmas of the parser monad (`st`, `run_cur`, …) come from `PoryProofs/BoolParseLeaf.lean`.
 -/
